@@ -64,9 +64,12 @@ Proofs/MetaHdrs.vos Proofs/MetaHdrs.vok Proofs/MetaHdrs.required_vos: Proofs/Met
 Proofs/MetaQcow2.vo Proofs/MetaQcow2.glob Proofs/MetaQcow2.v.beautified Proofs/MetaQcow2.required_vo: Proofs/MetaQcow2.v Base/Arith.vo Base/Plan.vo Base/Layout.vo Gen/Consts.vo Gen/Layouts.vo Gen/MetaQcow2Tables.vo Model/MetaCodec.vo Model/MetaQcow2.vo Proofs/MetaCodec.vo
 Proofs/MetaQcow2.vio: Proofs/MetaQcow2.v Base/Arith.vio Base/Plan.vio Base/Layout.vio Gen/Consts.vio Gen/Layouts.vio Gen/MetaQcow2Tables.vio Model/MetaCodec.vio Model/MetaQcow2.vio Proofs/MetaCodec.vio
 Proofs/MetaQcow2.vos Proofs/MetaQcow2.vok Proofs/MetaQcow2.required_vos: Proofs/MetaQcow2.v Base/Arith.vos Base/Plan.vos Base/Layout.vos Gen/Consts.vos Gen/Layouts.vos Gen/MetaQcow2Tables.vos Model/MetaCodec.vos Model/MetaQcow2.vos Proofs/MetaCodec.vos
-Proofs/MetaVhdx.vo Proofs/MetaVhdx.glob Proofs/MetaVhdx.v.beautified Proofs/MetaVhdx.required_vo: Proofs/MetaVhdx.v Base/Arith.vo Base/Plan.vo Base/Layout.vo Gen/Consts.vo Gen/Layouts.vo Model/MetaCodec.vo Model/MetaVhdx.vo Proofs/MetaCodec.vo
-Proofs/MetaVhdx.vio: Proofs/MetaVhdx.v Base/Arith.vio Base/Plan.vio Base/Layout.vio Gen/Consts.vio Gen/Layouts.vio Model/MetaCodec.vio Model/MetaVhdx.vio Proofs/MetaCodec.vio
-Proofs/MetaVhdx.vos Proofs/MetaVhdx.vok Proofs/MetaVhdx.required_vos: Proofs/MetaVhdx.v Base/Arith.vos Base/Plan.vos Base/Layout.vos Gen/Consts.vos Gen/Layouts.vos Model/MetaCodec.vos Model/MetaVhdx.vos Proofs/MetaCodec.vos
+Proofs/MetaText.vo Proofs/MetaText.glob Proofs/MetaText.v.beautified Proofs/MetaText.required_vo: Proofs/MetaText.v Base/Plan.vo Model/MetaCodec.vo
+Proofs/MetaText.vio: Proofs/MetaText.v Base/Plan.vio Model/MetaCodec.vio
+Proofs/MetaText.vos Proofs/MetaText.vok Proofs/MetaText.required_vos: Proofs/MetaText.v Base/Plan.vos Model/MetaCodec.vos
+Proofs/MetaVhdx.vo Proofs/MetaVhdx.glob Proofs/MetaVhdx.v.beautified Proofs/MetaVhdx.required_vo: Proofs/MetaVhdx.v Base/Arith.vo Base/Plan.vo Base/Layout.vo Gen/Consts.vo Gen/Layouts.vo Model/MetaCodec.vo Model/MetaVhdx.vo Proofs/MetaCodec.vo Proofs/MetaText.vo
+Proofs/MetaVhdx.vio: Proofs/MetaVhdx.v Base/Arith.vio Base/Plan.vio Base/Layout.vio Gen/Consts.vio Gen/Layouts.vio Model/MetaCodec.vio Model/MetaVhdx.vio Proofs/MetaCodec.vio Proofs/MetaText.vio
+Proofs/MetaVhdx.vos Proofs/MetaVhdx.vok Proofs/MetaVhdx.required_vos: Proofs/MetaVhdx.v Base/Arith.vos Base/Plan.vos Base/Layout.vos Gen/Consts.vos Gen/Layouts.vos Model/MetaCodec.vos Model/MetaVhdx.vos Proofs/MetaCodec.vos Proofs/MetaText.vos
 Proofs/MetaVmdk.vo Proofs/MetaVmdk.glob Proofs/MetaVmdk.v.beautified Proofs/MetaVmdk.required_vo: Proofs/MetaVmdk.v Base/Plan.vo Gen/MetaVmdkTables.vo Model/MetaCodec.vo Model/MetaVmdk.vo
 Proofs/MetaVmdk.vio: Proofs/MetaVmdk.v Base/Plan.vio Gen/MetaVmdkTables.vio Model/MetaCodec.vio Model/MetaVmdk.vio
 Proofs/MetaVmdk.vos Proofs/MetaVmdk.vok Proofs/MetaVmdk.required_vos: Proofs/MetaVmdk.v Base/Plan.vos Gen/MetaVmdkTables.vos Model/MetaCodec.vos Model/MetaVmdk.vos
@@ -79,6 +82,6 @@ Proofs/Vhd.vos Proofs/Vhd.vok Proofs/Vhd.required_vos: Proofs/Vhd.v Base/Arith.v
 Props/C04.vo Props/C04.glob Props/C04.v.beautified Props/C04.required_vo: Props/C04.v Base/Plan.vo Base/Table.vo Model/Vhd.vo Proofs/Vhd.vo
 Props/C04.vio: Props/C04.v Base/Plan.vio Base/Table.vio Model/Vhd.vio Proofs/Vhd.vio
 Props/C04.vos Props/C04.vok Props/C04.required_vos: Props/C04.v Base/Plan.vos Base/Table.vos Model/Vhd.vos Proofs/Vhd.vos
-Props/C14.vo Props/C14.glob Props/C14.v.beautified Props/C14.required_vo: Props/C14.v Base/Plan.vo Base/Layout.vo Gen/Consts.vo Gen/Layouts.vo Gen/MetaVmdkTables.vo Model/MetaCodec.vo Model/MetaQcow2.vo Model/MetaVhdx.vo Model/MetaVmdk.vo Model/MetaHdrs.vo Model/MetaHdd.vo Proofs/MetaCodec.vo Proofs/MetaQcow2.vo Proofs/MetaVhdx.vo Proofs/MetaVmdk.vo Proofs/MetaVmdkExt.vo Proofs/MetaHdd.vo Proofs/MetaHdrs.vo
-Props/C14.vio: Props/C14.v Base/Plan.vio Base/Layout.vio Gen/Consts.vio Gen/Layouts.vio Gen/MetaVmdkTables.vio Model/MetaCodec.vio Model/MetaQcow2.vio Model/MetaVhdx.vio Model/MetaVmdk.vio Model/MetaHdrs.vio Model/MetaHdd.vio Proofs/MetaCodec.vio Proofs/MetaQcow2.vio Proofs/MetaVhdx.vio Proofs/MetaVmdk.vio Proofs/MetaVmdkExt.vio Proofs/MetaHdd.vio Proofs/MetaHdrs.vio
-Props/C14.vos Props/C14.vok Props/C14.required_vos: Props/C14.v Base/Plan.vos Base/Layout.vos Gen/Consts.vos Gen/Layouts.vos Gen/MetaVmdkTables.vos Model/MetaCodec.vos Model/MetaQcow2.vos Model/MetaVhdx.vos Model/MetaVmdk.vos Model/MetaHdrs.vos Model/MetaHdd.vos Proofs/MetaCodec.vos Proofs/MetaQcow2.vos Proofs/MetaVhdx.vos Proofs/MetaVmdk.vos Proofs/MetaVmdkExt.vos Proofs/MetaHdd.vos Proofs/MetaHdrs.vos
+Props/C14.vo Props/C14.glob Props/C14.v.beautified Props/C14.required_vo: Props/C14.v Base/Plan.vo Base/Layout.vo Gen/Consts.vo Gen/Layouts.vo Gen/MetaVmdkTables.vo Model/MetaCodec.vo Model/MetaQcow2.vo Model/MetaVhdx.vo Model/MetaVmdk.vo Model/MetaHdrs.vo Model/MetaHdd.vo Proofs/MetaCodec.vo Proofs/MetaQcow2.vo Proofs/MetaVhdx.vo Proofs/MetaVmdk.vo Proofs/MetaVmdkExt.vo Proofs/MetaHdd.vo Proofs/MetaHdrs.vo Proofs/MetaText.vo
+Props/C14.vio: Props/C14.v Base/Plan.vio Base/Layout.vio Gen/Consts.vio Gen/Layouts.vio Gen/MetaVmdkTables.vio Model/MetaCodec.vio Model/MetaQcow2.vio Model/MetaVhdx.vio Model/MetaVmdk.vio Model/MetaHdrs.vio Model/MetaHdd.vio Proofs/MetaCodec.vio Proofs/MetaQcow2.vio Proofs/MetaVhdx.vio Proofs/MetaVmdk.vio Proofs/MetaVmdkExt.vio Proofs/MetaHdd.vio Proofs/MetaHdrs.vio Proofs/MetaText.vio
+Props/C14.vos Props/C14.vok Props/C14.required_vos: Props/C14.v Base/Plan.vos Base/Layout.vos Gen/Consts.vos Gen/Layouts.vos Gen/MetaVmdkTables.vos Model/MetaCodec.vos Model/MetaQcow2.vos Model/MetaVhdx.vos Model/MetaVmdk.vos Model/MetaHdrs.vos Model/MetaHdd.vos Proofs/MetaCodec.vos Proofs/MetaQcow2.vos Proofs/MetaVhdx.vos Proofs/MetaVmdk.vos Proofs/MetaVmdkExt.vos Proofs/MetaHdd.vos Proofs/MetaHdrs.vos Proofs/MetaText.vos
